@@ -9,7 +9,8 @@ open Lean Receptor.Drive Receptor.Forward
 def hopsOfFacts : HopRule :=
   { expireAt := if Receptor.Facts.fwd_expire_test = "HopsToLive <= 0" then 0 else 999999,
     decrement := Receptor.Facts.fwd_decrement,
-    noticeGuard := Receptor.Facts.fwd_notice_guard }
+    noticeGuard := Receptor.Facts.fwd_notice_guard,
+    pingGuard := Receptor.Facts.proto_ping_guard }
 
 def problemStr : Problem → String
   | .serviceUnknown => "service unknown" | .expired => "message expired" | .rejected => "blocked by firewall"
